@@ -151,6 +151,22 @@ PROPS["C12"] = dict(
     assumptions=["on TCP an unknown first method is closed by the port multiplexer (C19), so such sequences get an OPTIONS preamble"],
 )
 
+PROPS["C13"] = dict(
+    bin="race", level="exploration", shards={"quick": 12, "thorough": 16},
+    timeout={"quick": 1200, "thorough": 3400},
+    race_escalate=[r"network/socket/buffered\."],
+    rule=("per run: a real RECORD publisher pushes checksummed RTP frames (size classes 40-200, 1000-1400, 20000-60000, mixed) at full speed "
+          "through the in-process server while one real player (TCP with client-chosen channels 4-7, ws-rtsp, or WSP control+data) issues "
+          "600 (quick) / 4000 (thorough) OPTIONS/PLAY/GET_PARAMETER(/PAUSE) requests during delivery; seeded delays at the hook point between "
+          "the 4-byte frame prefix and the payload. Distinct by (transport, size class)"),
+    level_text=("Stream-parser monitor at the client boundary: every byte the player receives must parse as complete responses and complete "
+                "'$' frames with valid payload checksums; every WebSocket message is exactly one item; race-detector reports inside "
+                "buffered.Conn reached from the two writers are escalated to violations"),
+    level_note="the hook point rtp.write.prefixed lies inside the session write lock on purpose and only ever carries delays",
+    technique="runtime monitoring: independent stream parser + checksums on real sockets under schedule perturbation; Go race detector as sanitizer gate",
+    assumptions=["publisher frames carry id+CRC so splicing is detected even when lengths happen to line up"],
+)
+
 # checks whose texts are kept as JSON (props_json/<ID>.json)
 import json as _json, os as _os, glob as _glob
 for _f in sorted(_glob.glob(_os.path.join(_os.path.dirname(_os.path.abspath(__file__)), "props_json", "C*.json"))):
